@@ -45,6 +45,10 @@ def spec_evaluator(world, label):
     fv._branch_ids, fv._proved_ids = set(), set()
     fv.proving = False
     fv._loop_entry = None
+    fv._loop_it = None
+    fv._marks = {}
+    fv.replay_len = 0
+    fv.stat = {"feas": 0, "feas_s": 0.0, "full": 0, "full_s": 0.0}
     fv.where = lambda node: ""
     return fv
 
